@@ -50,7 +50,8 @@ CONSTANTS
   RecvConn,      \* connection window sozu is configured to advertise (>= ConnInit)
   Reaper,        \* BOOLEAN: the window-stall reaper may fire
   Legal,         \* BOOLEAN: the peer sends only legal WINDOW_UPDATE / SETTINGS
-  Deviations     \* open findings switched on (none so far)
+  BurstMin,      \* frames a peer must send back to back before deviation LoopBudget can apply
+  Deviations     \* open findings switched on (known_findings.json): "LoopBudget"
 
 VARIABLES
   pend,      \* settings the peer sent and sozu has not acknowledged yet (FIFO)
@@ -78,16 +79,20 @@ VARIABLES
   errOwed,   \* subset of ids \cup {0}: illegal peer frames sozu still has to answer (0 = connection)
   dead,      \* sozu sent GOAWAY with an error: the connection is over
   last,      \* ghost: the frame sozu has just put on the wire
-  stall      \* ghost: the observer has just seen sozu silent for its whole deadline
+  stall,     \* ghost: the observer has just seen sozu silent for its whole deadline
+  burst,     \* frames the peer has sent since sozu was last seen idle (counted only under LoopBudget)
+  dropped    \* sozu abandoned the connection (closed it without GOAWAY) while streams were unfinished
 
 vars == <<pend, nset, eff, connWin, strWin, ids, sst, pst, rem, up, nextOurs, lastPeer, cont, needUpd,
-          advInit, advConn, advStr, oweConn, oweStr, enl, ourSet, starved, errOwed, dead, last, stall>>
+          advInit, advConn, advStr, oweConn, oweStr, enl, ourSet, starved, errOwed, dead, last, stall, burst, dropped>>
 
 -----------------------------------------------------------------------------
 Min(a, b) == IF a < b THEN a ELSE b
 Max(a, b) == IF a > b THEN a ELSE b
-NoFrame == [k |-> "-", sid |-> 0, len |-> 0, upd |-> -1, need |-> FALSE, new |-> FALSE]
-Frame(k, s, n) == [k |-> k, sid |-> s, len |-> n, upd |-> -1, need |-> FALSE, new |-> FALSE]
+NoFrame == [k |-> "-", sid |-> 0, len |-> 0, upd |-> -1, need |-> FALSE, new |-> FALSE, pre |-> "-", pc |-> 0]
+\* pre = sozu's sending half of the stream before the frame ("new" if the stream did not exist), pc = cont before
+Pre(s) == IF s \in ids THEN sst[s] ELSE "new"
+Frame(k, s, n) == [k |-> k, sid |-> s, len |-> n, upd |-> -1, need |-> FALSE, new |-> FALSE, pre |-> Pre(s), pc |-> cont]
 Thr == RecvConn \div 2                   \* connection credit threshold (h2.rs handle_data_frame)
 
 \* w + n would exceed MaxWin (written so that no intermediate value leaves the 32-bit range)
@@ -107,7 +112,7 @@ Init ==
   /\ advInit = ConnInit /\ advConn = ConnInit /\ advStr = <<>>
   /\ oweConn = 0 /\ oweStr = <<>> /\ enl = RecvConn - ConnInit /\ ourSet = FALSE
   /\ starved = <<>> /\ errOwed = {} /\ dead = FALSE
-  /\ last = NoFrame /\ stall = FALSE
+  /\ last = NoFrame /\ stall = FALSE /\ burst = 0 /\ dropped = FALSE
 
 \* a new stream s enters every per-stream function
 NewStream(s, ss, ps, b, u) ==
@@ -119,7 +124,11 @@ NewStream(s, ss, ps, b, u) ==
   /\ oweStr' = oweStr @@ (s :> 0)
   /\ starved' = starved @@ (s :> FALSE)
 
-Quiet == last' = NoFrame /\ stall' = FALSE        \* no sozu frame in this step
+\* a frame from the peer: no sozu frame in this step; the burst grows (only tracked under LoopBudget)
+Quiet == /\ last' = NoFrame /\ stall' = FALSE /\ UNCHANGED dropped
+         /\ burst' = (IF "LoopBudget" \in Deviations THEN Min(burst + 1, BurstMin) ELSE 0)
+\* a frame from sozu
+Said(f) == last' = f /\ stall' = FALSE /\ UNCHANGED <<burst, dropped>>
 
 -----------------------------------------------------------------------------
 (* The peer *)
@@ -201,7 +210,7 @@ G_SozuSettings(w) == ~ourSet /\ cont = 0 /\ w >= 0 /\ w <= MaxWin
 E_SozuSettings(w) ==
   /\ ourSet' = TRUE /\ advInit' = w
   /\ advStr' = [s \in ids |-> advStr[s] + (w - advInit)]
-  /\ last' = NoFrame /\ stall' = FALSE
+  /\ Said(NoFrame)
   /\ UNCHANGED <<pend, nset, eff, connWin, strWin, ids, sst, pst, rem, up, nextOurs, lastPeer, cont, needUpd,
                  advConn, oweConn, oweStr, enl, starved, errOwed, dead>>
 Sozu_Settings(w) == G_SozuSettings(w) /\ E_SozuSettings(w)
@@ -219,7 +228,7 @@ E_SozuAck ==
   IN /\ pend' = Tail(pend) /\ eff' = v
      /\ strWin' = [s \in ids |-> IF Live(s) THEN strWin[s] + d ELSE strWin[s]]
      /\ needUpd' = (needUpd \/ v.tbl < eff.tbl)
-     /\ last' = Frame("A", 0, 0) /\ stall' = FALSE
+     /\ Said(Frame("A", 0, 0))
      /\ UNCHANGED <<nset, connWin, ids, sst, pst, rem, up, nextOurs, lastPeer, cont, advInit, advConn, advStr,
                     oweConn, oweStr, enl, ourSet, starved, errOwed, dead>>
 Sozu_AckSettings == G_SozuAck /\ E_SozuAck
@@ -228,7 +237,7 @@ Sozu_AckSettings == G_SozuAck /\ E_SozuAck
 G_SozuGoaway == ~dead /\ cont = 0 /\ (0 \in errOwed \/ (pend # <<>> /\ AckOverflows))
 E_SozuGoaway ==
   /\ dead' = TRUE /\ errOwed' = {} /\ pend' = <<>>
-  /\ last' = Frame("G", 0, 0) /\ stall' = FALSE
+  /\ Said(Frame("G", 0, 0))
   /\ UNCHANGED <<nset, eff, connWin, strWin, ids, sst, pst, rem, up, nextOurs, lastPeer, cont, needUpd, advInit,
                  advConn, advStr, oweConn, oweStr, enl, ourSet, starved>>
 Sozu_Goaway == G_SozuGoaway /\ E_SozuGoaway
@@ -238,7 +247,7 @@ G_SozuRst(s) == Live(s) /\ ~dead /\ cont = 0 /\ (s \in errOwed \/ (Reaper /\ sta
 E_SozuRst(s) ==
   /\ sst' = [sst EXCEPT ![s] = "reset"] /\ errOwed' = errOwed \ {s}
   /\ UNCHANGED cont
-  /\ last' = Frame("R", s, 0) /\ stall' = FALSE
+  /\ Said(Frame("R", s, 0))
   /\ UNCHANGED <<pend, nset, eff, connWin, strWin, ids, pst, rem, up, nextOurs, lastPeer, needUpd, advInit,
                  advConn, advStr, oweConn, oweStr, enl, ourSet, starved, dead>>
 Sozu_Rst(s) == G_SozuRst(s) /\ E_SozuRst(s)
@@ -264,14 +273,14 @@ E_SozuHeaders(s, b, n, eh, es, upd) ==
           /\ nextOurs' = s + 2
   /\ cont' = (IF eh THEN 0 ELSE s)
   /\ needUpd' = (needUpd /\ upd < 0)
-  /\ last' = [k |-> "H", sid |-> s, len |-> n, upd |-> upd, need |-> needUpd, new |-> s \notin ids] /\ stall' = FALSE
+  /\ Said([k |-> "H", sid |-> s, len |-> n, upd |-> upd, need |-> needUpd, new |-> s \notin ids, pre |-> Pre(s), pc |-> cont])
   /\ UNCHANGED <<pend, nset, eff, connWin, lastPeer, advInit, advConn, oweConn, enl, ourSet, errOwed, dead>>
 Sozu_SendHeaders(s, b, n, eh, es, upd) == G_SozuHeaders(s, b, n, eh, es, upd) /\ E_SozuHeaders(s, b, n, eh, es, upd)
 
 G_SozuCont(s, n, eh) == ~dead /\ cont # 0 /\ s = cont /\ n >= 0 /\ n <= eff.maxFrame
 E_SozuCont(s, n, eh) ==
   /\ cont' = (IF eh THEN 0 ELSE cont)
-  /\ last' = Frame("C", s, n) /\ stall' = FALSE
+  /\ Said(Frame("C", s, n))
   /\ UNCHANGED <<pend, nset, eff, connWin, strWin, ids, sst, pst, rem, up, nextOurs, lastPeer, needUpd, advInit,
                  advConn, advStr, oweConn, oweStr, enl, ourSet, starved, errOwed, dead>>
 Sozu_SendCont(s, n, eh) == G_SozuCont(s, n, eh) /\ E_SozuCont(s, n, eh)
@@ -287,7 +296,7 @@ E_SozuData(s, n, es) ==
   /\ rem' = [rem EXCEPT ![s] = Max(0, @ - n)]
   /\ strWin' = [strWin EXCEPT ![s] = @ - n] /\ connWin' = connWin - n
   /\ sst' = [sst EXCEPT ![s] = IF es THEN "done" ELSE @]
-  /\ last' = Frame("D", s, n) /\ stall' = FALSE
+  /\ Said(Frame("D", s, n))
   /\ UNCHANGED <<pend, nset, eff, ids, pst, up, nextOurs, lastPeer, cont, needUpd, advInit, advConn, advStr,
                  oweConn, oweStr, enl, ourSet, starved, errOwed, dead>>
 Sozu_SendData(s, n, es) == G_SozuData(s, n, es) /\ E_SozuData(s, n, es)
@@ -309,7 +318,7 @@ E_SozuWindowUpdate(x, n) ==
      ELSE /\ advStr' = [advStr EXCEPT ![x] = @ + n]
           /\ oweStr' = [oweStr EXCEPT ![x] = Max(0, @ - n)]
           /\ UNCHANGED <<advConn, enl, oweConn>>
-  /\ last' = Frame("W", x, n) /\ stall' = FALSE
+  /\ Said(Frame("W", x, n))
   /\ UNCHANGED <<pend, nset, eff, connWin, strWin, ids, sst, pst, rem, up, nextOurs, lastPeer, cont, needUpd,
                  advInit, ourSet, starved, errOwed, dead>>
 Sozu_WindowUpdate(x, n) == G_SozuWindowUpdate(x, n) /\ E_SozuWindowUpdate(x, n)
@@ -329,10 +338,34 @@ SozuOwes ==
   \/ ~dead /\ \E s \in ids : pst[s] = "open" /\ up[s] > 0 /\ oweStr[s] > 0
 
 G_Stall == ~SozuOwes
-E_Stall == stall' = TRUE /\ last' = NoFrame
+E_Stall == stall' = TRUE /\ last' = NoFrame /\ UNCHANGED <<burst, dropped>>
            /\ UNCHANGED <<pend, nset, eff, connWin, strWin, ids, sst, pst, rem, up, nextOurs, lastPeer, cont,
                           needUpd, advInit, advConn, advStr, oweConn, oweStr, enl, ourSet, starved, errOwed, dead>>
 Env_Stall == G_Stall /\ ~stall /\ E_Stall
+
+\* the observer saw sozu idle: it answered a PING sent after the peer's last frame and owes nothing
+G_Idle == ~SozuOwes
+E_Idle == burst' = 0 /\ last' = NoFrame /\ stall' = FALSE /\ UNCHANGED dropped
+          /\ UNCHANGED <<pend, nset, eff, connWin, strWin, ids, sst, pst, rem, up, nextOurs, lastPeer, cont,
+                         needUpd, advInit, advConn, advStr, oweConn, oweStr, enl, ourSet, starved, errOwed, dead>>
+Env_Idle == G_Idle /\ burst > 0 /\ E_Idle
+
+\* Everything is finished: all streams fully sent and answered, or reset with a reason
+Finished == \A s \in ids : \/ sst[s] = "reset"
+                           \/ sst[s] = "done" /\ rem[s] = 0 /\ pst[s] = "done"
+
+\* sozu closes the connection.  Fine once it is dead (GOAWAY) or everything is finished.
+\* Deviation LoopBudget (open finding): Mux::ready gives a session 10 000 loop iterations per wake-up and
+\* closes it - without GOAWAY - when they are used up; every frame of the peer costs about two, so a legal
+\* peer that sends a few thousand small frames back to back (1-byte DATA, WINDOW_UPDATE +1) is cut off.
+G_SozuClose == dead \/ Finished \/ ("LoopBudget" \in Deviations /\ burst >= BurstMin)
+E_SozuClose ==
+  /\ dropped' = (dropped \/ ~(dead \/ Finished))
+  /\ dead' = TRUE /\ errOwed' = {} /\ pend' = <<>>
+  /\ last' = NoFrame /\ stall' = FALSE /\ UNCHANGED burst
+  /\ UNCHANGED <<nset, eff, connWin, strWin, ids, sst, pst, rem, up, nextOurs, lastPeer, cont, needUpd, advInit,
+                 advConn, advStr, oweConn, oweStr, enl, ourSet, starved>>
+Sozu_Close == G_SozuClose /\ ~dead /\ E_SozuClose
 
 -----------------------------------------------------------------------------
 HdrArgs == {<<n, eh, upd>> : n \in HdrLens, eh \in BOOLEAN, upd \in {-1} \cup {v.tbl : v \in SettingsVals}}
@@ -346,6 +379,7 @@ SozuNext ==
   \/ \E n \in HdrLens : Sozu_SendCont(cont, n, TRUE)
   \/ \E s \in Ids, n \in 0..MaxWin, es \in BOOLEAN : Sozu_SendData(s, n, es)
   \/ \E x \in Ids \cup {0}, n \in 1..MaxWin : Sozu_WindowUpdate(x, n)
+  \/ ("LoopBudget" \in Deviations /\ ~Finished /\ Sozu_Close)
 
 PeerNext ==
   \/ \E v \in SettingsVals : Peer_Settings(v)
@@ -355,7 +389,7 @@ PeerNext ==
   \/ \E s \in Ids, n \in 0..MaxWin, es \in BOOLEAN : Peer_SendData(s, n, es)
   \/ \E s \in Ids : Peer_Starve(s)
 
-Next == SozuNext \/ PeerNext \/ Env_Stall
+Next == SozuNext \/ PeerNext \/ Env_Stall \/ Env_Idle
 Spec == Init /\ [][Next]_vars
 
 -----------------------------------------------------------------------------
@@ -374,7 +408,7 @@ TypeOK ==
 \* Flow control (RFC 9113 6.9.1, 6.9.2): a DATA frame never takes a window below zero.  A window can only
 \* be negative through a SETTINGS change (the step that changes eff), never through DATA.  Stated twice: on
 \* the state right after a DATA frame, and as a step property that does not look at `last`.
-P_C14_Windows == last.k = "D" => connWin >= 0 /\ (last.sid \in ids => strWin[last.sid] >= 0)
+P_C14_Windows == last.k = "D" /\ last.len > 0 => connWin >= 0 /\ (last.sid \in ids => strWin[last.sid] >= 0)
 P_C14_WindowSteps ==
   [][ eff' = eff =>
         /\ (connWin' < connWin => connWin' >= 0)
@@ -382,9 +416,10 @@ P_C14_WindowSteps ==
 \* ... and a new stream starts with the initial window in force
 P_C14_NewStreamWindow == last.new /\ last.sid \in ids => strWin[last.sid] = eff.initWin
 
-\* Frame size (RFC 9113 4.2): every DATA / HEADERS / CONTINUATION payload fits the maximum frame size in
-\* force at that point of sozu's byte stream
-P_C14_FrameSize == last.k \in {"D", "H", "C"} => last.len <= eff.maxFrame
+\* Frame size (RFC 9113 4.2): every DATA / HEADERS / CONTINUATION payload - and whatever else the peer reads
+\* as a frame header ("X": the trace validator's name for a frame of any other type) - fits the maximum
+\* frame size in force at that point of sozu's byte stream
+P_C14_FrameSize == last.k \in {"D", "H", "C", "X"} => last.len <= eff.maxFrame
 
 \* Concurrency (RFC 9113 5.1.2) and identifiers (5.1.1) of the streams sozu opens
 P_C14_MaxStreams == Role = "client" /\ last.new => Cardinality(Active) <= eff.maxStreams
@@ -398,10 +433,10 @@ P_C14_Hpack == last.k = "H" => last.upd <= eff.tbl /\ (last.need => last.upd >= 
 \* no DATA / HEADERS on a stream after its END_STREAM / RST_STREAM; a header block is contiguous: while one
 \* is unfinished the only frame sozu may send is its CONTINUATION (RFC 9113 6.10)
 P_C14_StreamStates ==
-  [][ /\ (last'.k \in {"D", "H"} /\ last'.sid \in ids => sst[last'.sid] \in {"wait", "open"})
-      /\ (last'.k = "D" /\ last'.sid \in ids => sst[last'.sid] = "open")
-      /\ (cont # 0 /\ last'.k # "-" => last'.k = "C" /\ last'.sid = cont)
-      /\ (last'.k = "C" => cont # 0) ]_vars
+  /\ (last.k = "H" => last.pre \in {"wait", "open", "new"})
+  /\ (last.k = "D" => last.pre = "open")
+  /\ (last.pc # 0 /\ last.k # "-" => last.k = "C" /\ last.sid = last.pc)
+  /\ (last.k = "C" => last.pc # 0)
 
 \* sozu's own windows: it never advertises more than MaxWin, never credits with a zero increment
 P_C14_OwnWindows ==
@@ -410,6 +445,9 @@ P_C14_OwnWindows ==
 
 \* progress, made observable: sozu is never silent for a whole observation deadline while it owes a frame
 P_C14_Progress == stall => ~SozuOwes
+
+\* a connection with unfinished streams is never abandoned (closed without the GOAWAY an illegal peer earns)
+P_C14_NeverDropped == ~dropped
 
 \* vacuity guard of the above: whatever is owed can be done
 P_C14_OwedIsEnabled == SozuOwes => ENABLED SozuNext
